@@ -41,13 +41,31 @@ func (n *LocalNode) hash(nodes []chord.VNode) uint64 {
 
 // routine based on pseudo code from the paper "How to Make Chord Correct"
 func (n *LocalNode) stabilize() error {
+	// a round reads the successor list, talks to the successors and stores what it computed.
+	// Rounds overlap (the periodic task and the advisories of joining and leaving neighbours run
+	// them concurrently): a round that was slow must not put its older view back over the list a
+	// faster round has stored meanwhile, or the node routes (and may leave) through a successor
+	// that is not its successor any more. Such a round starts over from the current list.
+	for attempt := 0; attempt < 3; attempt++ {
+		stale, err := n.stabilizeOnce()
+		if !stale {
+			return err
+		}
+	}
+	return nil
+}
+
+func (n *LocalNode) stabilizeOnce() (stale bool, err error) {
+	n.successorsMu.RLock()
+	startHash := n.succListHash.Load()
+	n.successorsMu.RUnlock()
 	succList := n.getSuccessors()
 	modified := false
 
 	for len(succList) > 0 {
 		head := succList[0]
 		if head == nil {
-			return chord.ErrNodeNoSuccessor
+			return false, chord.ErrNodeNoSuccessor
 		}
 		newSucc, spErr := head.GetPredecessor()
 		newSuccList, nsErr := head.GetSuccessors()
@@ -95,6 +113,11 @@ func (n *LocalNode) stabilize() error {
 	listHash := n.hash(succList)
 	if modified && n.succListHash.Load() != listHash {
 		n.successorsMu.Lock()
+		if n.succListHash.Load() != startHash {
+			// the list was replaced while this round was running
+			n.successorsMu.Unlock()
+			return true, nil
+		}
 		n.updateSuccessorsList(listHash, succList)
 		n.successorsMu.Unlock()
 	}
@@ -107,7 +130,7 @@ func (n *LocalNode) stabilize() error {
 	}
 
 	verifPoint("stab.done", n)
-	return nil
+	return false, nil
 }
 
 func (n *LocalNode) updateSuccessorsList(listHash uint64, succList []chord.VNode) {
